@@ -16,6 +16,19 @@ from obl.dbimpl_compact import compaction_obls
 _c = compaction_obls("c")
 OBLIGATIONS += [o for o in _c if o.tier == "quick"][2:] + [o for o in _c if o.tier != "quick"]
 
+# d/e/f: tombstones are dropped only when no deeper level holds the key (real is_base_level_for_key, all levels
+# down to 6); a flushed table is placed only where nothing above or at that level overlaps it; compaction never
+# moves a newer version of a key below an older one (boundary inputs, level-0 closure)
+from obl.vset_more import baselevel_obls, overlap_obls, boundary_obls
+_keep = {"base-level-C4-L6x2-Q2", "base-level-C0-L2x2-L3x2-Q3", "base-level-C0-L2x1-L3x1-L4x1-L5x1-L6x1-Q2",
+         "pick-level-L0x1-L1x1-L2x1-L3x1", "pick-level-L1x2-L2x1", "overlaps-range-L0-N2", "overlaps-range-L1-N2", "find-file-N3",
+         "overlapping-inputs-L0-N3", "pick-seek-C1-L1x3-L2x1-S1", "pick-seek-C4-L4x3-L5x1-L6x1-S2"}
+_v = baselevel_obls("d") + overlap_obls("e") + boundary_obls("f")
+for _o in _v:
+    if _o.tier == "quick" and _o.name.split(".", 1)[1] not in _keep:
+        _o.tier = "thorough"
+OBLIGATIONS += _v
+
 META = {
     "level": "model_checking",
     "level_text": "Bounded model checking (CBMC) of the real lookup mechanisms that make a read return the latest write: ldb_version_get (level-0 newest-first, deeper levels by binary search, tombstones hide older values, snapshot bound) over a symbolic multi-level version against the reference 'newest entry <= snapshot over all entries of all files'; further mechanisms (memtable get, compaction drop rule, flush placement, boundary inputs) are added as separate obligations as they are built.",
